@@ -35,9 +35,9 @@ def run(ctx):
         return core.finish(ctx)
     if drv:
         quick = ctx.tier == "quick"
-        core.trace_component(ctx, "seqlock", ["random", "--seed", ctx.seed, "--cases", 20 if quick else 100, "--progs", 120 if quick else 800],
+        core.trace_component(ctx, "seqlock", ["random", "--seed", ctx.seed, "--cases", 20 if quick else 100, "--progs", 120 if quick else 400],
                              label="seqlock.random", oracle=seqlock_oracle)
-        core.trace_component(ctx, "seqlock", ["exhaustive", "--seed", ctx.seed + 1, "--cases", 2500 if quick else 60000, "--progs", 4 if quick else 14,
+        core.trace_component(ctx, "seqlock", ["exhaustive", "--seed", ctx.seed + 1, "--cases", 2500 if quick else 20000, "--progs", 4 if quick else 14,
                                               "--preempt", 2 if quick else 3], label="seqlock.exhaustive", oracle=seqlock_oracle)
         # cell layout functions (sizes 1..300, alignments 1..256, aligned and unaligned payload addresses): part of the alloc component
         core.diff_component(ctx, "alloc", ["gen", "--seed", ctx.seed, "--cases", 1200 if quick else 20000, "--len", 4], classify, label="layout")
